@@ -1,126 +1,244 @@
 /-!
 # DocQuote: how a documentation string is written and how Python reads it back
 
-`ModelEncoder.encode` / `SpaceEncoder.encode` (`serialize/serializer_6.py`) emit
-`'"""' + doc + '"""'` and `CellsEncoder.encode` emits `'"""%s"""' % doc` after a lambda
-cells; nothing is escaped.  The reader gets the text back through
-`ziputil.read_str_utf8` (text mode, universal newlines) and Python's own reading of a
-triple-quoted literal (`ast.parse` for model/space docs, `ast.literal_eval(token.string)`
-for lambda cells).
+Writer.  `quote_docstring` of `modelx/core/formula.py` (commit 2b72506), used by
+`ModelEncoder.encode`, `SpaceEncoder.encode` and `CellsEncoder.encode` (after a lambda
+cells) of `serialize/serializer_6.py`, and by `replace_docstring` (`Cells.set_doc`):
 
-The alphabet is restricted to the characters that decide the outcome:
+```python
+def quote_docstring(docstr):
+    chars = []
+    quotes = 0      # Length of the current run of unescaped quotes
+    last = len(docstr) - 1
+    for i, c in enumerate(docstr):
+        if c == '"':
+            quotes += 1
+            if quotes == 3 or i == last:
+                c = '\\"'
+                quotes = 0
+        else:
+            quotes = 0
+            c = _DOCSTR_ESCAPES.get(c, c)
+        chars.append(c)
+    return '"""' + "".join(chars) + '"""'
+```
 
-* `q`  – the double quote `"`,
-* `bs` – the backslash,
-* `nl` – line feed, `cr` – carriage return,
-* `en` – the letter `n`, standing for the letters that form a *recognised* escape sequence
-  after a backslash (`\n` is a line feed),
-* `plain c` – a character that is ordinary both on its own and after a backslash (Python
-  keeps `\c` as the two characters `\c`), see `classify`.
+`quoteBody` is the loop (`i == last` is `rest = []`), `escapeOf` is `_DOCSTR_ESCAPES`.
 
-Characters outside this alphabet (the other escape letters `a b f r t v`, `'`, the digits
-`0–7`, `x N u U`) are not covered: `classify` returns `none` and the driver answers
-`unsupported`.
+Reader.  The text comes back through `ziputil.read_str_utf8` (text mode, universal
+newlines) and Python's own reading of a triple-quoted, non-raw, non-bytes string literal
+(`ast.parse` for model and space docs, `ast.literal_eval(token.string)` for the docstring
+after a lambda cells, `compile` for the docstring of a def).  CPython does this in two
+steps, and so does the model:
+
+1. the tokenizer finds the end of the literal (`scanTok`): it counts the current run of
+   quote characters, a backslash takes the next character with it, the third quote of a
+   run closes; the string parser then cuts three characters off both ends;
+2. the escape sequences of the body are decoded (`dec`): `\<newline>`, `\\ \' \"`,
+   `\a \b \f \n \r \t \v`, up to three octal digits, `\xHH`, `\uXXXX`, `\UXXXXXXXX`;
+   an unknown escape keeps both characters (SyntaxWarning); a truncated `\x \u \U` is a
+   SyntaxError.
+
+Not covered by the model (`dec` answers `none`, the driver says `unsupported`):
+`\N{name}` (needs the Unicode name table) and escapes whose value is a surrogate code
+point (a Python `str` can hold one, a Lean `Char` cannot).  The writer produces neither.
+
+Everything is over `List Char`: every Python `str` without lone surrogates is covered.
 -/
 namespace MxModel.DocQuote
 
-inductive Ch where
-  | q | bs | nl | cr | en
-  | plain (c : Char)
-deriving DecidableEq, Repr
+/-! ## Writer -/
 
-/-- the characters that start an escape sequence Python recognises (besides `n`, which is `en`),
-and the quote `'`; `plain` must avoid them -/
-def escapeLetters : List Char :=
-  ['\'', 'a', 'b', 'f', 'r', 't', 'v', '0', '1', '2', '3', '4', '5', '6', '7', 'x', 'N', 'u', 'U']
+/-- `_DOCSTR_ESCAPES.get(c)`: backslash, NUL, and every character at which `str.splitlines`
+splits a text, except the line feed -/
+def escapeOf (c : Char) : Option (List Char) :=
+  if c = '\\' then some ['\\', '\\']
+  else if c = Char.ofNat 0 then some ['\\', 'x', '0', '0']
+  else if c = '\r' then some ['\\', 'r']
+  else if c = Char.ofNat 0x0b then some ['\\', 'x', '0', 'b']
+  else if c = Char.ofNat 0x0c then some ['\\', 'x', '0', 'c']
+  else if c = Char.ofNat 0x1c then some ['\\', 'x', '1', 'c']
+  else if c = Char.ofNat 0x1d then some ['\\', 'x', '1', 'd']
+  else if c = Char.ofNat 0x1e then some ['\\', 'x', '1', 'e']
+  else if c = Char.ofNat 0x85 then some ['\\', 'x', '8', '5']
+  else if c = Char.ofNat 0x2028 then some ['\\', 'u', '2', '0', '2', '8']
+  else if c = Char.ofNat 0x2029 then some ['\\', 'u', '2', '0', '2', '9']
+  else none
 
-/-- bridge from real characters (used by the driver) -/
-def classify (c : Char) : Option Ch :=
-  if c = '"' then some .q
-  else if c = '\\' then some .bs
-  else if c = '\n' then some .nl
-  else if c = '\r' then some .cr
-  else if c = 'n' then some .en
-  else if escapeLetters.contains c then none
-  else some (.plain c)
+/-- the loop of `quote_docstring`; `quotes` = length of the current run of unescaped quotes -/
+def quoteBody : Nat → List Char → List Char
+  | _, [] => []
+  | quotes, c :: rest =>
+    if c = '"' then
+      if quotes + 1 = 3 ∨ rest = [] then '\\' :: '"' :: quoteBody 0 rest
+      else '"' :: quoteBody (quotes + 1) rest
+    else
+      (match escapeOf c with
+       | some e => e
+       | none => [c]) ++ quoteBody 0 rest
 
-/-- `'"""' + doc + '"""'` -/
-def writeDoc (doc : List Ch) : List Ch := [.q, .q, .q] ++ doc ++ [.q, .q, .q]
+def qqq : List Char := ['"', '"', '"']
+
+/-- `quote_docstring(docstr)` -/
+def quoteDocstring (doc : List Char) : List Char := qqq ++ quoteBody 0 doc ++ qqq
+
+/-! ## Reader -/
 
 /-- Text-mode reading with `newline=None` (and again Python's tokenizer): `\r\n` and a lone
 `\r` become `\n`. -/
-def universalNl : List Ch → List Ch
-  | [] => []
-  | .cr :: .nl :: rest => .nl :: universalNl rest
-  | .cr :: rest => .nl :: universalNl rest
-  | c :: rest => c :: universalNl rest
+def nlAux : Bool → List Char → List Char   -- the flag: the previous character was `\r`
+  | _, [] => []
+  | afterCr, c :: rest =>
+    if c = '\r' then '\n' :: nlAux true rest
+    else if c = '\n' ∧ afterCr = true then nlAux false rest
+    else c :: nlAux false rest
 
-/-- value of the escape sequence backslash + `c` in a (non-raw, non-bytes) literal -/
-def decodeEsc : Ch → List Ch
-  | .q => [.q]            -- \" is a quote
-  | .bs => [.bs]          -- \\ is one backslash
-  | .nl => []             -- backslash-newline: the line is continued, nothing is produced
-  | .en => [.nl]          -- \n
-  | .cr => [.bs, .cr]     -- not reachable: the text is newline-normalised before it is scanned
-  | .plain c => [.bs, .plain c]   -- unrecognised escape: both characters stay (SyntaxWarning)
+def universalNl (text : List Char) : List Char := nlAux false text
 
-def startsQQ : List Ch → Bool
-  | .q :: .q :: _ => true
-  | _ => false
+/-- CPython's tokenizer inside a triple-quoted literal, the opening quotes consumed;
+`run` = length of the current run of quote characters (`end_quote_size`).  Result: the
+text of the token from here on *including* the closing quotes, and the text that follows
+the token; `none` = `SyntaxError: unterminated triple-quoted string literal`. -/
+def scanTok : Nat → List Char → Option (List Char × List Char)
+  | _, [] => none
+  | run, c :: rest =>
+    if c = '"' then
+      if run + 1 = 3 then some (['"'], rest)
+      else (scanTok (run + 1) rest).map (fun p => ('"' :: p.1, p.2))
+    else if c = '\\' then
+      match rest with
+      | [] => none
+      | e :: rest' => (scanTok 0 rest').map (fun p => ('\\' :: e :: p.1, p.2))
+    else (scanTok 0 rest).map (fun p => (c :: p.1, p.2))
 
-/-- Scanning the body of a triple-quoted literal (the opening `"""` already consumed):
-a backslash takes the next character with it, the first un-escaped `"""` closes.
-Result: (value of the literal, text that follows the closing quotes); `none` = the literal is
-not terminated (`SyntaxError: unterminated triple-quoted string literal`). -/
-def scan : List Ch → Option (List Ch × List Ch)
-  | [] => none
-  | .bs :: [] => none
-  | .bs :: c :: rest => (scan rest).map (fun p => (decodeEsc c ++ p.1, p.2))
-  | .q :: rest =>
-    if startsQQ rest then some ([], rest.drop 2)
-    else (scan rest).map (fun p => (.q :: p.1, p.2))
-  | .nl :: rest => (scan rest).map (fun p => (.nl :: p.1, p.2))
-  | .cr :: rest => (scan rest).map (fun p => (.cr :: p.1, p.2))
-  | .en :: rest => (scan rest).map (fun p => (.en :: p.1, p.2))
-  | .plain c :: rest => (scan rest).map (fun p => (.plain c :: p.1, p.2))
-
-/-- The first token of `text` as a triple-quoted literal: its value and the rest of the text. -/
-def lexLit (text : List Ch) : Option (List Ch × List Ch) :=
+/-- The first token of `text` as a triple-quoted literal: the body between the quotes (the
+string parser cuts the three closing quotes off, `s[3:-3]`) and the rest of the text. -/
+def lexLit (text : List Char) : Option (List Char × List Char) :=
   match universalNl text with
-  | .q :: .q :: .q :: body => scan body
+  | '"' :: '"' :: '"' :: body =>
+    (scanTok 0 body).map (fun p => (p.1.take (p.1.length - 3), p.2))
   | _ => none
+
+def hexVal (c : Char) : Option Nat :=
+  if '0' ≤ c ∧ c ≤ '9' then some (c.toNat - 48)
+  else if 'a' ≤ c ∧ c ≤ 'f' then some (c.toNat - 87)
+  else if 'A' ≤ c ∧ c ≤ 'F' then some (c.toNat - 55)
+  else none
+
+def octVal (c : Char) : Option Nat :=
+  if '0' ≤ c ∧ c ≤ '7' then some (c.toNat - 48) else none
+
+/-- what the character after a backslash means -/
+inductive Esc where
+  | nothing            -- backslash-newline: the line is continued, nothing is produced
+  | char (c : Char)    -- one character
+  | hex (n : Nat)      -- `n` hexadecimal digits follow
+  | oct (v : Nat)      -- first of up to three octal digits, its value
+  | named              -- `\N{…}`: not modelled
+  | keep               -- unknown escape: both characters stay
+deriving DecidableEq, Repr
+
+def escKind (e : Char) : Esc :=
+  if e = '\n' then .nothing
+  else if e = '\\' then .char '\\'
+  else if e = '\'' then .char '\''
+  else if e = '"' then .char '"'
+  else if e = 'a' then .char (Char.ofNat 7)
+  else if e = 'b' then .char (Char.ofNat 8)
+  else if e = 'f' then .char (Char.ofNat 12)
+  else if e = 'n' then .char '\n'
+  else if e = 'r' then .char '\r'
+  else if e = 't' then .char '\t'
+  else if e = 'v' then .char (Char.ofNat 11)
+  else if e = 'x' then .hex 2
+  else if e = 'u' then .hex 4
+  else if e = 'U' then .hex 8
+  else if e = 'N' then .named
+  else match octVal e with
+    | some v => .oct v
+    | none => .keep
+
+/-- the character with code point `n` followed by `rest`; `none` for a surrogate (not
+modelled) and beyond U+10FFFF (SyntaxError: illegal Unicode character) -/
+def emit (n : Nat) (rest : Option (List Char)) : Option (List Char) :=
+  if n < 0xD800 ∨ (0xDFFF < n ∧ n < 0x110000) then rest.map (Char.ofNat n :: ·) else none
+
+/-- states of the escape decoder -/
+inductive St where
+  | text                      -- ordinary text
+  | esc                       -- just after a backslash
+  | hex (n acc : Nat)         -- `n` more hexadecimal digits needed, value so far `acc`
+  | oct (n acc : Nat)         -- up to `n` more octal digits accepted, value so far `acc`
+deriving DecidableEq, Repr
+
+/-- value of the body of a (non-raw, non-bytes) string literal, one character at a time -/
+def dec : St → List Char → Option (List Char)
+  | .text, [] => some []
+  | .text, c :: r => if c = '\\' then dec .esc r else (dec .text r).map (c :: ·)
+  | .esc, [] => none          -- not reachable from a complete token
+  | .esc, e :: r =>
+    match escKind e with
+    | .nothing => dec .text r
+    | .char v => (dec .text r).map (v :: ·)
+    | .hex n => dec (.hex n 0) r
+    | .oct v => dec (.oct 2 v) r
+    | .named => none
+    | .keep => (dec .text r).map (fun t => '\\' :: e :: t)
+  | .hex _ _, [] => none      -- truncated \x \u \U escape
+  | .hex 0 _, _ :: _ => none  -- not used: the last digit emits
+  | .hex (n + 1) acc, c :: r =>
+    match hexVal c with
+    | none => none
+    | some v => if n = 0 then emit (16 * acc + v) (dec .text r) else dec (.hex n (16 * acc + v)) r
+  | .oct _ acc, [] => emit acc (some [])
+  | .oct n acc, c :: r =>
+    match n, octVal c with
+    | n' + 1, some v =>
+      if n' = 0 then emit (8 * acc + v) (dec .text r) else dec (.oct n' (8 * acc + v)) r
+    | _, _ =>
+      -- the octal escape is over; `c` is read as ordinary text
+      emit acc (if c = '\\' then dec .esc r else (dec .text r).map (c :: ·))
 
 /-- `text` is exactly one triple-quoted literal; its value.  Anything left over after the
 closing quotes means the written statement is not the docstring that was meant (a syntax
 error, or a different program). -/
-def readLit (text : List Ch) : Option (List Ch) :=
+def readLiteral (text : List Char) : Option (List Char) :=
   match lexLit text with
-  | some (v, []) => some v
+  | some (body, []) => dec .text body
   | _ => none
 
-/-! ## The documentation strings that survive -/
-
-/-- every backslash is directly followed by a `plain` character -/
-def bsOk : List Ch → Bool
-  | [] => true
-  | [.bs] => false
-  | .bs :: .plain _ :: rest => bsOk rest
-  | .bs :: _ :: _ => false
-  | _ :: rest => bsOk rest
-
-def endsWithQ (doc : List Ch) : Bool := doc.getLast? == some .q
-
-/-- three quotes in a row somewhere -/
-def hasTriple : List Ch → Bool
-  | .q :: .q :: .q :: _ => true
-  | _ :: rest => hasTriple rest
+/-- does the body use an escape the model does not decode?  (`\N{…}`; the driver answers
+`unsupported` – surrogates are detected by the harness) -/
+def usesNamed : List Char → Bool
   | [] => false
+  | [_] => false
+  | c :: e :: r => if c = '\\' then (e = 'N') || usesNamed r else usesNamed (e :: r)
 
-/-- `SafeDoc`: no carriage return, no `"""` inside, not ending in `"`, and no backslash except
-in front of a character that means nothing after a backslash. -/
-def SafeDoc (doc : List Ch) : Prop :=
-  Ch.cr ∉ doc ∧ hasTriple doc = false ∧ endsWithQ doc = false ∧ bsOk doc = true
+/-! ## Characters a source text does not keep -/
 
-instance (doc : List Ch) : Decidable (SafeDoc doc) := by unfold SafeDoc; exact inferInstance
+/-- NUL (rejected by `ast.parse`), the carriage return (newline translation) and the other
+characters at which `str.splitlines` splits (the `Formula` constructor re-joins the lines
+of a def with `\n`) -/
+def sourceUnsafe : List Char :=
+  [Char.ofNat 0, '\r', Char.ofNat 0x0b, Char.ofNat 0x0c, Char.ofNat 0x1c, Char.ofNat 0x1d,
+   Char.ofNat 0x1e, Char.ofNat 0x85, Char.ofNat 0x2028, Char.ofNat 0x2029]
+
+/-- the characters at which `str.splitlines` splits, other than the line feed -/
+def otherBoundaries : List Char :=
+  ['\r', Char.ofNat 0x0b, Char.ofNat 0x0c, Char.ofNat 0x1c, Char.ofNat 0x1d,
+   Char.ofNat 0x1e, Char.ofNat 0x85, Char.ofNat 0x2028, Char.ofNat 0x2029]
+
+/-- `"\n".join(text.splitlines())`, as `remove_decorator` / `replace_funcname` (the `Formula`
+constructor of a def) and `FunctionDefParser` apply it to the source of a def: every line
+boundary becomes a line feed (`\r\n` is one boundary), the final one is dropped.  The flag:
+the previous character was `\r`. -/
+def splitJoin : Bool → List Char → List Char
+  | _, [] => []
+  | afterCr, c :: rest =>
+    if c = '\n' ∧ afterCr = true then splitJoin false rest
+    else if c = '\n' ∨ c ∈ otherBoundaries then
+      if rest = [] ∨ (c = '\r' ∧ rest = ['\n']) then []
+      else '\n' :: splitJoin (decide (c = '\r')) rest
+    else c :: splitJoin false rest
 
 end MxModel.DocQuote
